@@ -45,10 +45,11 @@ func (k chainKey) String() string {
 }
 
 type liveChain struct {
-	key  chainKey
-	c    *chain.Chain
-	idx  int // number of NextSlot calls made
-	step *chain.Step
+	key   chainKey
+	c     *chain.Chain
+	idx   int // number of NextSlot calls made
+	step  *chain.Step
+	shock bool
 }
 
 func newLive(k chainKey) (*liveChain, error) {
@@ -60,10 +61,48 @@ func newLive(k chainKey) (*liveChain, error) {
 	if err != nil {
 		return nil, err
 	}
-	c.Policy = chain.PolicyByName(k.policy)
+	c.Policy = chain.PolicyByName(strings.TrimSuffix(k.policy, "+shock"))
 	// the live epochs context is what the real code maintains: no reload of its sync committees from the state
 	c.FollowCodeSyncCommittee = true
-	return &liveChain{key: k, c: c}, nil
+	return &liveChain{key: k, c: c, shock: strings.HasSuffix(k.policy, "+shock")}, nil
+}
+
+// balanceShock ("<policy>+shock" chains): in the middle of every epoch the balances of most validators are moved far
+// away from their effective balances — down to 17..31 ETH in odd epochs, up to 40 ETH in even ones — the way a large
+// penalty or a top-up deposit moves them. Nothing else is touched: the next epoch transition of the real code then
+// changes the effective balances of ACTIVE validators, and the live context has to sample the proposers of the new
+// epoch with the new effective balances. Deterministic in (epoch, validator index).
+func (l *liveChain) balanceShock(slot common.Slot) error {
+	spe := uint64(l.c.Spec.SLOTS_PER_EPOCH)
+	if uint64(slot)%spe != spe/2 {
+		return nil
+	}
+	e := uint64(slot) / spe
+	bals, err := l.c.State.Balances()
+	if err != nil {
+		return err
+	}
+	vals, err := l.c.State.Validators()
+	if err != nil {
+		return err
+	}
+	n, err := vals.ValidatorCount()
+	if err != nil {
+		return err
+	}
+	for i := uint64(0); i < n; i++ {
+		if (i+e)%4 == 0 {
+			continue
+		}
+		b := common.Gwei(40_000_000_000)
+		if e%2 == 1 {
+			b = common.Gwei(17_000_000_000 + ((i*7+e*5)%15)*1_000_000_000 + (i%7)*100_000_000)
+		}
+		if err := bals.SetBalance(common.ValidatorIndex(i), b); err != nil {
+			return err
+		}
+	}
+	return nil
 }
 
 func (l *liveChain) advance() error {
@@ -73,6 +112,9 @@ func (l *liveChain) advance() error {
 	}
 	l.idx++
 	l.step = st
+	if l.shock {
+		return l.balanceShock(st.Slot)
+	}
 	return nil
 }
 
@@ -272,6 +314,39 @@ func answer(spec *common.Spec, post common.BeaconState, epc *common.EpochsContex
 		" cnt=" + cnt(prev) + "," + cnt(cur) + "," + cnt(next) + " props=" + strings.Join(ps, ",") + " sidx=" + sidx + " spk=" + spk
 }
 
+// effChange classifies an epoch transition by how many validators active in the new epoch changed effective balance.
+func effChange(pre, post common.BeaconState, epoch common.Epoch) string {
+	pv, err1 := pre.Validators()
+	qv, err2 := post.Validators()
+	if err1 != nil || err2 != nil {
+		return "unreadable"
+	}
+	n, _ := pv.ValidatorCount()
+	changed := 0
+	for i := uint64(0); i < n; i++ {
+		a, err1 := pv.Validator(common.ValidatorIndex(i))
+		b, err2 := qv.Validator(common.ValidatorIndex(i))
+		if err1 != nil || err2 != nil {
+			return "unreadable"
+		}
+		ea, _ := a.EffectiveBalance()
+		eb, _ := b.EffectiveBalance()
+		act, _ := b.ActivationEpoch()
+		ex, _ := b.ExitEpoch()
+		if ea != eb && act <= epoch && epoch < ex {
+			changed++
+		}
+	}
+	switch {
+	case changed == 0:
+		return "no active validator changed effective balance"
+	case changed < 4:
+		return "1-3 active validators changed effective balance"
+	default:
+		return ">=4 active validators changed effective balance"
+	}
+}
+
 type chainPlan struct {
 	key   chainKey
 	slots int
@@ -300,6 +375,14 @@ func genChain(o hreg.Opts, w *bufio.Writer) error {
 		{chainKey{"rand:" + strconv.FormatInt(400+o.Seed, 10), "mixed", "kickstart", "deposits", 40, 32}, 48},
 		{chainKey{"rand:" + strconv.FormatInt(500+o.Seed, 10), "uniform", "eth1", "eventful", 32, 33}, 48},
 		{chainKey{"rand:" + strconv.FormatInt(600+o.Seed, 10), "mixed", "kickstart", "default", 64, 34}, 48},
+		// small registries whose epoch transitions change the effective balances of many active validators (balance
+		// shocks, leaks): the live context must sample the new epoch's proposers with the NEW effective balances
+		{chainKey{"fast@1,2,3,4", "mixed", "kickstart", "default+shock", 16, 35}, 56},
+		{chainKey{"minimal@1,2,3,4", "poor", "kickstart", "quiet+shock", 24, 36}, 64},
+		{chainKey{"fast@0,1,2,3", "mixed", "kickstart", "deposits+shock", 24, 37}, 48},
+		{chainKey{"rand:" + strconv.FormatInt(700+o.Seed, 10), "mixed", "kickstart", "eventful+shock", 32, 38}, 48},
+		{chainKey{"fast@2,3,4,5", "poor", "kickstart", "leak-recover", 24, 39}, 80},
+		{chainKey{"fast@1,2,3,4", "mixed", "kickstart", "nobody", 16, 40}, 48},
 	}
 	if o.Thorough() {
 		pols := []string{"default", "deposits", "eventful", "exits", "sparse", "quiet"}
@@ -353,6 +436,9 @@ func genChain(o hreg.Opts, w *bufio.Writer) error {
 				st.Add("line", "skipped slot")
 			default:
 				st.Add("line", "block")
+			}
+			if uint64(s.Slot)%spe == 0 {
+				st.Add("epoch transition", effChange(s.Pre, s.Post, common.Epoch(ep)))
 			}
 			st.Add("fork", s.Fork.String())
 			for _, op := range s.Ops {
